@@ -86,22 +86,23 @@ Print Assumptions c10_persist_returned.
    after the handshake inbound; a blocked address — in every textual form —
    and every address of a blocked subnet is never handed to a transport and is
    closed at accept inbound; nothing is admitted outbound without a transport
-   dial *)
+   dial — for every option a dial context can carry (plain, WithForceDirectDial,
+   WithSimultaneousConnect, WithAllowLimitedConn, WithNoDial) *)
 Theorem c10_blocked_never_admitted : forall sites h,
   (forall g, has_gate sites g = true) -> Forall wf_event h ->
   let m := g_mem (run init_state h) in
   (forall p, model_has m (IdPeer p) ->
-     (forall addrs, outbound sites m p addrs = [PvPeerDial p false]) /\
+     (forall o addrs, outbound_opt sites o m p addrs = [PvPeerDial p false] \/ outbound_opt sites o m p addrs = []) /\
      (forall oa, intercept_accept m oa = true ->
         inbound sites m p oa = [PvAccept true; PvHandshake; PvSecured true p false; PvClosed]) /\
      (forall oa, ~ In PvConnected (inbound sites m p oa))) /\
   (forall a b, model_has m (tid (RAddr a)) -> norm_ip b = norm_ip a ->
-     (forall p addrs j, nth_error addrs j = Some (Some b) -> ~ In (PvTransportDial j) (outbound sites m p addrs)) /\
+     (forall o p addrs j, nth_error addrs j = Some (Some b) -> ~ In (PvTransportDial j) (outbound_opt sites o m p addrs)) /\
      (forall p, inbound sites m p (Some b) = [PvAccept false; PvClosed])) /\
   (forall s b, wf_snet s -> snet_key s <> None -> wf_ip b -> model_has m (tid (RSubnet s)) -> contains s b = true ->
-     (forall p addrs j, nth_error addrs j = Some (Some b) -> ~ In (PvTransportDial j) (outbound sites m p addrs)) /\
+     (forall o p addrs j, nth_error addrs j = Some (Some b) -> ~ In (PvTransportDial j) (outbound_opt sites o m p addrs)) /\
      (forall p, inbound sites m p (Some b) = [PvAccept false; PvClosed])) /\
-  (forall p addrs, In PvConnected (outbound sites m p addrs) ->
+  (forall o p addrs, In PvConnected (outbound_opt sites o m p addrs) ->
      exists k, In (PvTransportDial k) (outbound sites m p addrs)).
 Proof. exact blocked_never_admitted_l. Qed.
 Print Assumptions c10_blocked_never_admitted.
@@ -119,6 +120,32 @@ Proof.
   rewrite forallb_forall in E. apply E, H.
 Qed.
 Print Assumptions c10_gate_sites_complete.
+
+(* regenerated obligation on ORDER: in every listener function that passes an
+   inbound connection on — to the accept queue, to an in-flight hole punch, to
+   the next stage — the gates that function is responsible for come first in
+   the source (code 9 = a statement that passes the connection on).  Moving a
+   hand-off in front of the gater check breaks this. *)
+Theorem c10_handoff_after_gates : forall fam req seq, In (fam, req, seq) c10_handoff_order ->
+  In 9%Z seq /\
+  forall pre post, seq = pre ++ 9%Z :: post -> forall g, In g req -> In g pre.
+Proof.
+  intros fam req seq H.
+  assert (E : handoffs_guarded c10_handoff_order = true) by (vm_compute; reflexivity).
+  exact (handoffs_guarded_sound _ E fam req seq H).
+Qed.
+Print Assumptions c10_handoff_after_gates.
+
+(* ... and every listener the pipeline model speaks about is in that list *)
+Theorem c10_handoff_functions_present :
+  forall fam, In fam [1; 2; 3; 4]%Z -> existsb (fun x : Z * list Z * list Z => Z.eqb (fst (fst x)) fam) c10_handoff_order = true.
+Proof.
+  intros fam H.
+  assert (E : forallb (fun fam => existsb (fun x : Z * list Z * list Z => Z.eqb (fst (fst x)) fam) c10_handoff_order) [1; 2; 3; 4]%Z = true)
+    by (vm_compute; reflexivity).
+  rewrite forallb_forall in E. apply E, H.
+Qed.
+Print Assumptions c10_handoff_functions_present.
 
 (* hence the pipeline theorem applies to the gates each transport family
    actually has in the source *)
@@ -222,6 +249,6 @@ Proof. vm_compute. discriminate. Qed.
 
 (* the end-to-end monitor rejects a transport dial to a blocked peer *)
 Example monitor_rejects_dial_to_blocked_peer :
-  monitor_e2e (mkE2E false true [EOp (Block (RPeer 1))] 1 [Some (IP4 2130706433)]
+  monitor_e2e (mkE2E false OForceDirect true [EOp (Block (RPeer 1))] 1 [Some (IP4 2130706433)]
                      [PvPeerDial 1 true; PvTransportDial 0] 0 0 []) <> [].
 Proof. vm_compute. discriminate. Qed.
